@@ -372,7 +372,9 @@ def compare_pair(run, rule, a_path, b_path, keys=ALL, subs_b=(), exempt=(), subs
         return
     run.touch(a)
     run.touch(b)
-    nb = S.Norm(**norm_b) if norm_b else S.Norm()
+    norm_b = dict(norm_b or {})
+    norm_b["arg_map"] = S.align_params(a, b, norm_b.get("arg_map"))
+    nb = S.Norm(**norm_b)
     na = S.Norm(**norm_a) if norm_a else S.Norm()
     sa = _norm_returns(_apply(S.summary(a, na), list(subs_a)))
     sb = _norm_returns(_apply(S.summary(b, nb), list(subs_b)))
